@@ -580,8 +580,54 @@ pub fn run(args: &Args) -> i32 {
     for h in handles {
         let _ = h.join();
     }
+    sun_facing_cases(&mut cw, exhaustive);
     cw.finish();
     0
+}
+
+/// sane models whose glazed wall looks straight at the July sun: for every design-day hour of a few climate zones the wall of the
+/// `cubo` model that carries the window is turned so that its normal points at the sun, and a small grid of orientations around that
+/// pose (steps of a thousandth of a degree) is computed — the angle of incidence is then the arc cosine of a sum that rounding can
+/// push past 1
+fn sun_facing_cases(cw: &mut CaseWriter, thorough: bool) {
+    use bemodel::climatedata::JULYRADDATA;
+    let Some((_, base)) = crate::corpus::real_models(false).into_iter().find(|(l, _)| l.contains("cubo")) else { return };
+    let Some(win) = base.windows.first().cloned() else { return };
+    let Some(wi) = base.walls.iter().position(|w| w.id == win.wall) else { return };
+    let sane_model = Model::default();
+    let mut zones: Vec<_> = JULYRADDATA.lock().map(|t| t.keys().cloned().collect::<Vec<_>>()).unwrap_or_default();
+    zones.sort_by_key(|z| format!("{z:?}"));
+    let zones: Vec<_> = if thorough { zones.into_iter().step_by(4).collect() } else { zones.into_iter().step_by(13).collect() };
+    let (half, step) = if thorough { (10i32, 0.001f32) } else { (3, 0.003) };
+    for zone in zones {
+        let rad = JULYRADDATA.lock().ok().and_then(|t| t.get(&zone).cloned()).unwrap_or_default();
+        for d in rad.iter() {
+            let (t0, a0) = (90.0 - d.altitude, d.azimuth);
+            let mut worst: Option<(Value, Value)> = None;
+            let mut last = Value::Null;
+            let mut n = 0;
+            for i in -half..=half {
+                for j in -half..=half {
+                    let mut m = base.clone();
+                    m.meta.climate = zone;
+                    m.walls[wi].geometry.tilt = t0 + i as f32 * step;
+                    m.walls[wi].geometry.azimuth = a0 + j as f32 * step;
+                    let tree = serde_json::to_value(&m).unwrap_or(Value::Null);
+                    let r = run_one(&tree, &sane_model);
+                    n += 1;
+                    let bad = r["outcome"] != "ok" || !r["non_finite_at"].is_null() || r["loads_back"] == false;
+                    if bad && worst.is_none() {
+                        worst = Some((tree, r.clone()));
+                    }
+                    last = r;
+                }
+            }
+            let (tree, imp) = worst.unwrap_or((Value::Null, last));
+            cw.write(json!({"op": "noop", "label": format!("sun-facing:{:?}:{}h", zone, d.hour),
+                "edits": [format!("glazed wall turned to tilt {t0:.3} azimuth {a0:.3} and {n} orientations within {:.3} degrees of it", half as f32 * step)],
+                "model": tree, "impl": imp}));
+        }
+    }
 }
 
 /// why a model is not sane (debug aid for the harness)
